@@ -61,6 +61,14 @@ class _D:
         self.steps.append(dict(kind="fn", scope=[], fn=fi, args=[("v", a) for a in args], attrs={}, outs=None, prefix="", ids=ids))
         return ids[0] if len(ids) == 1 else ids
 
+    def upd(self, vin, dt, sh, body):
+        """One body step updating a state (c18_traces' NumPy reading of Identity is float-only)."""
+        if dt == TR.I:
+            return self.op("Add", [("v", vin), ("lit", 1)], [(dt, sh)], into=body)
+        if dt == TR.F:
+            return self.op("Mul", [("v", vin), ("lit", 0.5)], [(dt, sh)], into=body)
+        return self.op("Not", [("v", vin)], [(dt, sh)], into=body)
+
     def loop(self, trip, cond, states, body_fn=None, n=0):
         """states: list of ("v", id) | ("lit", value); the body passes every state through an Identity (a tensor
         state through `body_fn(self, body, carried_id) -> id` when given)."""
@@ -81,7 +89,7 @@ class _D:
             if body_fn is not None and states[j][0] == "v":
                 r = body_fn(self, body, vin)
             else:
-                r = self.op("Identity", [("v", vin)], [(dt, sh)], into=body)
+                r = self.upd(vin, dt, sh, body)
             rets.append(r)
             decl.append("")
         ids = [self.new(dt, sh) for dt, sh in st_types]
@@ -102,7 +110,7 @@ class _D:
         el = self.new(sdt, ssh[1:])
         ins.append((f"delem{n}", sdt, ssh[1:], el))
         for j, (dt, sh) in enumerate(st_types):
-            rets.append(self.op("Identity", [("v", ins[j][3])], [(dt, sh)], into=body))
+            rets.append(self.upd(ins[j][3], dt, sh, body))
             decl.append("")
         rets.append(self.op("Mul", [("v", el), ("lit", 2.0)], [(sdt, ssh[1:])], into=body))
         decl.append(f"dscan_out{n}")
@@ -170,8 +178,9 @@ def literal_traces(rng, tier):
 
     # homogeneous variadic: literals at every position incl. the first; known / unknown / both kinds of siblings
     for name in ("Max", "Min", "Sum", "Mean"):
-        d = _D([(F, sh), (F, sh), (I, sh)])
+        d = _D([(F, sh), (F, sh), (F, sh)])
         u = d.fn("twice_minus", [0, 1], sh)
+        xi = d.op("Cast", [("v", 2)], [(I, sh)], {"to": 7}, out=False)     # make_feeds feeds float32 only
         for n in (2, 3, 4):
             for pos in range(n):
                 d.op(name, _place(n, {pos}, [rng.choice(lits)], [0, 1]), [(F, sh)])
@@ -182,14 +191,15 @@ def literal_traces(rng, tier):
         d.op(name, [("v", u), ("v", 0), ("lit", 2)], [(F, sh)])                           # first binder unknown
         d.op(name, [("lit", 1), ("v", u), ("lit", 2.5), ("v", 0)], [(F, sh)])
         if name in ("Max", "Min"):
-            d.op(name, [("lit", 3), ("v", 2), ("lit", True)], [(I, sh)])
-            d.op(name, [("v", 2), ("lit", -2), ("lit", 0)], [(I, sh)])
+            d.op(name, [("lit", 3), ("v", xi), ("lit", True)], [(I, sh)])
+            d.op(name, [("v", xi), ("lit", -2), ("lit", 0)], [(I, sh)])
         out.append(d.trace())
 
     # Concat with list literals at every position
-    d = _D([(F, sh), (I, sh), (F, sh)])
+    d = _D([(F, sh), (F, sh), (F, sh)])
     u = d.fn("twice_minus", [0, 2], sh)
-    for v, dt, ll in [(0, F, [[1, 2], [0.5], [True, False], [1.5, -2.0, 0.25]]), (1, I, [[1, 2], [7], [True, False]]),
+    xi = d.op("Cast", [("v", 1)], [(I, sh)], {"to": 7}, out=False)
+    for v, dt, ll in [(0, F, [[1, 2], [0.5], [True, False], [1.5, -2.0, 0.25]]), (xi, I, [[1, 2], [7], [True, False]]),
                       (u, F, [[1, 2], [0.5], [True]])]:
         for n in (2, 3):
             for pos in range(n):
